@@ -464,3 +464,7 @@ def check(ctx):
                               'some bin counts (e.g. 49 bins in double for bins*(1/bins)); refinement inherits it'
                               % T.pretty(hi_x)[:120], {'first': T.pretty(lo_x)[:120], 'last': T.pretty(hi_x)[:120]})
         ctx.guard('R3.uniform', fsite(c), rc)
+    # the grid a run continues with is the refinement of the last result: the accessor that derives
+    # it must not short-cut the refinement (shared with C19)
+    share(ctx, 'C19', 'R6/C19.', ['R2.next_grid'])
+
